@@ -66,13 +66,13 @@ def vLength (v : V) : Nat :=
 
 mutual
 /-- `Equals` (repaired): Null only equals Null, types must agree, arrays element by element,
-floats by IEEE `==` (NaN equals nothing) -/
+floats by IEEE `==` (NaN equals nothing; the bit-level `fEq32` / `fEq` of `FloatCmp.lean`) -/
 def veq : V → V → Bool
   | .null, .null => true
   | .int a, .int b => a == b
   | .long a, .long b => a == b
-  | .float a, .float b => a == b
-  | .double a, .double b => a == b
+  | .float a, .float b => fEq32 a b
+  | .double a, .double b => fEq a b
   | .str a, .str b => a == b
   | .bool a, .bool b => a == b
   | .dateTime s1 n1, .dateTime s2 n2 => s1 == s2 && n1 == n2
@@ -87,8 +87,7 @@ def veqList : List V → List V → Bool
 end
 
 mutual
-/-- no floating-point NaN can occur inside (decidable approximation: no float/double at all is
-`noFloat`; `noNaN` uses the host comparison) -/
+/-- no float/double at all inside (a coarse sufficient condition for `noNaN`) -/
 def noFloat : V → Bool
   | .float _ => false
   | .double _ => false
@@ -98,6 +97,19 @@ def noFloat : V → Bool
 def noFloatList : List V → Bool
   | [] => true
   | e :: es => noFloat e && noFloatList es
+end
+
+mutual
+/-- no floating-point NaN (and no host-dependent value) inside; decided on the bit patterns -/
+def noNaN : V → Bool
+  | .float x => !fIsNaN32 x
+  | .double x => !fIsNaN x
+  | .array es => noNaNList es
+  | .host _ _ => false
+  | _ => true
+def noNaNList : List V → Bool
+  | [] => true
+  | e :: es => noNaN e && noNaNList es
 end
 
 end Verif
